@@ -224,7 +224,24 @@ pub mod verif {
     // C03 (planner): graph construction + `Graph::execution_plan`.
     pub use crate::graph::{Constant, Graph, Node, OperatorNode, PlanOptions};
     pub use crate::operator::Operator;
-    pub use crate::ops::{Identity, If, Shape};
+
+    /// Real operators used as planner test nodes: `Identity` (can run in
+    /// place), `Shape` (cannot), `If` (has subgraphs, hence captures).
+    pub fn op_identity() -> std::sync::Arc<dyn Operator + Send + Sync> {
+        std::sync::Arc::new(crate::ops::Identity {})
+    }
+    pub fn op_shape() -> std::sync::Arc<dyn Operator + Send + Sync> {
+        std::sync::Arc::new(crate::ops::Shape {
+            start: None,
+            end: None,
+        })
+    }
+    pub fn op_if(then_branch: Graph, else_branch: Graph) -> std::sync::Arc<dyn Operator + Send + Sync> {
+        std::sync::Arc::new(crate::ops::If {
+            then_branch,
+            else_branch,
+        })
+    }
     // C21: external data allow-list predicate and loaders.
     #[cfg(feature = "onnx_format")]
     pub use crate::constant_storage::ConstantStorage;
